@@ -6,6 +6,7 @@
  S2 R-LOOKUP   _extractObservationAtTime: one row per target, in order; row = state at the
                last event time <= target (abstract execution over a path with targets that
                hit an event time, fall between events, precede the first and follow the last)
+ S4 R-STEP/R-FR  the per-step counts that are binned are the counts that were applied to the state
  S3 R-GRIDIO   solve_stochast: list / tuple / array grids are normalised alike; final time =
                last grid point; states go through the last-event look-up iff exact; counts
                through _addJumpsBetweenTime(counts, times, grid, exact); the grid is returned
@@ -33,6 +34,16 @@ def check(repo, res, tier):
     res.n_clauses = ["that consecutive rows differ by V times the interval counts numerically (follows from S1-S3 and C04)",
                      "tau-leap interpolation accuracy"]
     cls = M.sim_class(repo)
+    # S4: "rows differ by V times the counts of that interval" needs the per-step counts to be the counts that were
+    # applied (one-hot at the fired event in exact mode; the drawn count per event in tau mode) and to be recorded
+    from ..rules import step as S
+    res.rule("R-STEP", "per-step counts reported = counts applied to the state (same index, same draw); recorded from the step that produced the state")
+    res.rule("R-FR", "exact mode: the fired event is the one whose column was applied and whose count is 1")
+    res.rule("R-SLOT", "the counts / times recorded per step are the matching slots of the stepper result")
+    ctx = S.Ctx(repo)
+    S.check_first_reaction(ctx, res)
+    S.check_tau_leap(ctx, res)
+    S.check_jump(ctx, res)
     _check_loopdep(repo, res, cls)
     _check_lookup(repo, res, cls)
     _check_interp(repo, res, cls)
@@ -118,49 +129,38 @@ def _arr_eq(a, b):
     return None
 
 
-def _check_lookup(repo, res, cls):
+def _check_lookup(repo, res, cls, rule="R-LOOKUP"):
+    """the exact-mode look-up interpreted over concrete event times and opaque state rows (loop or vectorised form)"""
+    from ..core.numarr import NumArr, num_summaries
     f = repo.resolve_method(cls, "_extractObservationAtTime")
     if f is None:
         raise AnalysisError("_extractObservationAtTime vanished")
-    times = [0.0, 1.0, 2.5, 4.0]
-    X = [Tok("x%d" % i) for i in range(4)]
-    targets = [0.0, 0.5, 1.0, 2.0, 2.5, 3.9, 4.0, 7.0]     # hits, between, after the last event (extinction)
-    want = []
-    for tg in targets:
-        k = max(i for i, tt in enumerate(times) if tt <= tg)
-        want.append(X[k])
-
-    class TArr(list):
-        pass
-    # `t == t_target` must be element-wise: give t as an object whose == is interpreted by the eq hook
-    tobj = Obj("ndarray", data=list(times))
-
-    def eq(a, b):
-        for x, y in ((a, b), (b, a)):
-            if isinstance(x, Obj) and x.cls == "ndarray" and isinstance(y, (int, float)):
-                return [v == y for v in x.attrs["data"]]
-        return None
-    summ = _np_summaries()
-    summ["np.searchsorted"] = lambda a, v, side="left": __import__("bisect").bisect_left(a.attrs["data"] if isinstance(a, Obj) else list(a), v)
-    me = Obj("Model")
-    ab = Abs({}, {}, summ, me, {}, eq=eq)
-    try:
-        kind, out = ab.run_function(f.node, {f.params[1]: list(X), f.params[2]: tobj, f.params[3]: list(targets)})
-    except Undecided as e:
-        res.undecided("R-LOOKUP", f, "abstract-execution", "outside the modelled subset: %s" % e)
-        return
-    got = list(out) if kind == "return" and isinstance(out, list) else out
-    res.check(kind == "return" and got == want, "R-LOOKUP", f, "last-event-before",
-              "for targets %s the rows are the states at the last event time <= target" % targets,
-              "look-up over event times %s and targets %s returns %s, expected %s" % (times, targets, got, want), node=f.node)
-    # a target before the first event time maps to the first state (clipped), never to the last
-    try:
-        ab = Abs({}, {}, summ, Obj("Model"), {}, eq=eq)
-        kind, out = ab.run_function(f.node, {f.params[1]: list(X), f.params[2]: Obj("ndarray", data=[1.0, 2.0, 3.0, 4.0]), f.params[3]: [0.5]})
-        res.check(kind == "return" and list(out) == [X[0]], "R-LOOKUP", f, "clip-at-start", "a target before the first time maps to the first row",
-                  "a target before the first recorded time maps to %s (index wraps around)" % (out,), node=f.node)
-    except Undecided as e:
-        res.undecided("R-LOOKUP", f, "clip-at-start", str(e))
+    cases = [
+        ("hits, gaps and times after the last event", [0.0, 1.0, 2.5, 4.0], [0.0, 0.5, 1.0, 2.0, 2.5, 3.9, 4.0, 7.0, 9.0]),
+        ("a target before the first recorded time", [1.0, 2.0, 3.0, 4.0], [0.5, 1.0]),
+        ("only the initial point recorded", [0.0], [0.0, 1.0, 2.0]),
+        ("last recorded event beyond the grid", [0.0, 0.7, 1.4, 6.0], [0.0, 1.0, 2.0, 3.0]),
+    ]
+    for label, times, targets in cases:
+        X = [Tok("x%d" % i) for i in range(len(times))]
+        want = []
+        for tg in targets:
+            ks = [i for i, tt in enumerate(times) if tt <= tg]
+            want.append(X[max(ks) if ks else 0])
+        for tform, tval in (("list", list(targets)), ("array", NumArr(targets))):
+            summ = num_summaries()
+            me = Obj("Model")
+            ab = Abs({}, {}, summ, me, {})
+            tag = "last-event-before(%s, %s grid)" % (label, tform)
+            try:
+                kind, out = ab.run_function(f.node, {f.params[1]: NumArr(X), f.params[2]: NumArr(times), f.params[3]: tval})
+            except Undecided as e:
+                res.undecided(rule, f, tag, "outside the modelled subset: %s" % e)
+                continue
+            got = out.tolist() if isinstance(out, NumArr) else (list(out) if isinstance(out, list) else out)
+            res.check(kind == "return" and got == want, rule, f, tag,
+                      "event times %s, targets %s: each row is the state at the last event time <= target" % (times, targets),
+                      "event times %s, targets %s: the look-up returns rows %s (%s), expected %s" % (times, targets, got, kind, want), node=f.node)
 
 
 def _check_interp(repo, res, cls):
